@@ -153,6 +153,13 @@ func init() {
 				}
 			}
 		}
+		// same-named nodes that differ in one keyword around `required` (see neardup.go): each position keeps its own
+		// presence checks
+		for _, pc := range nearDupCases(c, "c04-near-duplicates") {
+			if strings.Contains(pc.Labels[0], "required") {
+				pcs = append(pcs, pc)
+			}
+		}
 		// required keys of definitions that several allOf compositions share (every single deletion)
 		pcs = append(pcs, sharedDefinitionCases(c, "c04-shared-definitions")...)
 		// random
@@ -177,7 +184,47 @@ func init() {
 			return docs
 		})...)
 		res := runCases(c, pcs)
-		fails := verdictOracle(c, res, "required property", nil)
+		fails := verdictOracle(c, res, "required property", func(r *core.PResult, i int) bool {
+			// a required property WITH a default is filled, not demanded (the generator's stated convention; out of
+			// scope F04): skip a near-duplicate document that omits such a key
+			if r.Case.Stream != "c04-near-duplicates" {
+				return false
+			}
+			root, _ := r.Case.Schema.(sgen.M)
+			doc, _ := r.Case.Docs[i].(M)
+			props, _ := root["properties"].(sgen.M)
+			for k, ps := range props {
+				node, _ := ps.(sgen.M)
+				if ref, ok := node["$ref"].(string); ok {
+					if defs, ok := root["$defs"].(sgen.M); ok {
+						node, _ = defs[ref[strings.LastIndex(ref, "/")+1:]].(sgen.M)
+					}
+				}
+				if it, ok := node["items"].(sgen.M); ok {
+					node = it
+				}
+				tp, _ := node["properties"].(sgen.M)
+				t, _ := tp["t"].(sgen.M)
+				if _, hasDefault := t["default"]; !hasDefault {
+					continue
+				}
+				var vals []any
+				switch v := doc[k].(type) {
+				case M:
+					vals = []any{v}
+				case []any:
+					vals = v
+				}
+				for _, v := range vals {
+					if m, ok := v.(M); ok {
+						if _, present := m["t"]; !present {
+							return true
+						}
+					}
+				}
+			}
+			return false
+		})
 		certCount(c, res, "req")
 		for _, r := range res {
 			if len(c.Samples) < 6 && len(r.DocJSON) > 1 {
@@ -363,7 +410,7 @@ func init() {
 
 	// ------------------------------------------------------------------ C09
 	register("C09", func(c *engine.Ctx) {
-		c.Rule = "one optional property with a default per program: scalar defaults (string, integer, number, boolean), string/number enum carriers, depth-1 arrays of primitives; documents with the property absent, null, and present with another valid value; the decoded field (read from json.Marshal of the decoded value) must equal the default resp. the document value; two schema nodes that ask for the same Go type name (sibling properties, definitions, definition vs property; both orders) and differ only in their defaults must each apply their own. Plus random schemas with defaults for the model tie. Distinct = distinct (default kind, document kind, outcome)."
+		c.Rule = "one optional property with a default per program: scalar defaults (string — also multi-line, CR LF, quotes, backslash, backtick, %, non-ASCII —, integer, number incl. 1e19 / 2^63 / 1e-6, boolean), string/number enum carriers, depth-1 arrays of primitives; documents with the property absent, null, and present with another valid value; the decoded field (read from json.Marshal of the decoded value) must equal the default resp. the document value; two schema nodes that ask for the same Go type name (sibling properties, definitions, definition vs property; both orders) and differ only in their defaults must each apply their own. Plus random schemas with defaults for the model tie. Distinct = distinct (default kind, document kind, outcome)."
 		c.Proofs([]string{"GJS.Props.C09"}, []string{
 			"GJS.Props.C09.absent_gets_default", "GJS.Props.C09.null_gets_default", "GJS.Props.C09.present_wins",
 			"GJS.Props.C09.literal_value_typed",
@@ -380,6 +427,11 @@ func init() {
 			{"integer-bounded", M{"type": "integer", "minimum": 1, "maximum": 9, "default": 5}, 7},
 			{"number", M{"type": "number", "default": 1.5}, 2.25},
 			{"number-integral-default", M{"type": "number", "default": 2}, 0.5},
+			{"string-crlf-default", M{"type": "string", "default": "Content-Type: text/plain\r\nConnection: close\r\n\r\n"}, "zz"},
+			{"string-multiline-default", M{"type": "string", "default": "line one\nline two\n"}, "zz"},
+			{"string-hostile-default", M{"type": "string", "default": "q\"q back\\slash `tick` 100% {{x}} \t tab é 日本"}, "zz"},
+			{"string-cr-only-default", M{"type": "string", "default": "a\rb"}, "zz"},
+			{"array-of-crlf-strings", M{"type": "array", "items": M{"type": "string"}, "default": []any{"a\r\nb", "c\nd"}}, []any{"c"}},
 			{"number-huge-default", M{"type": "number", "default": 1e19}, 0.5},
 			{"number-huge-negative-default", M{"type": "number", "default": -1e19}, 0.5},
 			{"number-2^63-default", M{"type": "number", "default": 9223372036854775808.0}, 1.5},
